@@ -95,8 +95,10 @@ class Sequence(AbstractSequence):
 
         if self.parent is not None and self.parent.location is not None:
             if isinstance(key, slice):
-                rel_start = key.start
-                rel_end = key.stop
+                if key.step not in (None, 1):
+                    raise ValueError("Cannot slice a Sequence that has a location on its parent with a step")
+                rel_start = key.start if key.start is not None else 0
+                rel_end = key.stop if key.stop is not None else len(self)
             else:
                 rel_start = key
                 rel_end = key + 1
